@@ -14,3 +14,4 @@ import MypyVerif.Props.C15
 import MypyVerif.Props.C17
 import MypyVerif.Props.C13
 import MypyVerif.Props.C08
+import MypyVerif.Props.C06
